@@ -173,7 +173,7 @@ CLAIMED = {
             'interval functions are enclosures; every real kernel called with an explicit directed mode '
             'honours it at its final rounding on every path (found: loggamma negated after rounding, so '
             'iv.loggamma was inverted for x < 1.46 - repaired); the cos/sin outward perturbation has the '
-            'right shape; conversions round each endpoint outward; a packed interval is never used after one of its unpacked endpoints was recomputed (C-R9).  NOT decided: choice of corner / '
+            'right shape; every x + eps shortcut of the real kernels perturbs towards the sign of the neglected term (found: mpf_log near 1 - repaired); conversions round each endpoint outward; a packed interval is never used after one of its unpacked endpoints was recomputed (C-R9).  NOT decided: choice of corner / '
             'monotonicity region (one seeded change of that kind is not detected) and the accuracy of the '
             'transcendental kernels inside their guard bits.',
             'Trusts the monotonicity table (sa/iv_dir.py), the reasoned operand exemptions '
